@@ -143,6 +143,14 @@ pub fn produce(r: &mut Rng, out: &mut String, b: &str, t: &[(u32, u32)], which: 
         3 => {
             // sorted append in a few batches
             writeln!(out, "new {}", b).unwrap();
+            if !all.is_empty() && all.len() <= 12000 && r.chance(1, 2) {
+                // one call that is refused at its very end (an out-of-order value after everything else): the
+                // accepted prefix - the whole target - stays, as documented
+                let mut s: Vec<String> = all.iter().map(|x| x.to_string()).collect();
+                s.push(all[r.below(all.len() as u64) as usize].to_string());
+                writeln!(out, "append {} {}", b, s.join(" ")).unwrap();
+                return "append-refused-at-the-end";
+            }
             for ch in all.chunks(500) {
                 let s: Vec<String> = ch.iter().map(|x| x.to_string()).collect();
                 writeln!(out, "append {} {}", b, s.join(" ")).unwrap();
@@ -211,21 +219,170 @@ pub fn produce(r: &mut Rng, out: &mut String, b: &str, t: &[(u32, u32)], which: 
             }
             "sparse-then-overlapping-ranges"
         }
+        8 | 9 => {
+            // set algebra (8: a binary operator in one of its six forms, 9: a multi-operand operation): operands
+            // designed so that the result is exactly the target. Padding P lives in the target's chunks (a window
+            // minus the target), so that chunks of the operands are bitsets whose result must shrink back
+            writeln!(out, "new b10").unwrap();
+            writeln!(out, "new b11").unwrap();
+            writeln!(out, "new b12").unwrap();
+            let mut keys: Vec<u64> = t.iter().map(|&(s, _)| (s >> 16) as u64).collect();
+            keys.dedup();
+            let runs_into = |out: &mut String, slot: &str, every: usize, phase: usize| {
+                for (i, &(s, l)) in t.iter().enumerate() {
+                    if every == 1 || i % every == phase {
+                        writeln!(out, "insert_range {} in:{} in:{}", slot, s, s as u64 + l as u64 - 1).unwrap();
+                    }
+                }
+            };
+            let w = *r.pick(&[0u64, 3000, 5000, 32768, 32768]);
+            // two disjoint windows per chunk; `carve` removes the target from a padding slot again
+            let window = |out: &mut String, slot: &str, half: u64| {
+                if w > 0 {
+                    for &k in &keys {
+                        let lo = (k << 16) + half * 32768;
+                        writeln!(out, "insert_range {} in:{} in:{}", slot, lo, lo + w - 1).unwrap();
+                    }
+                }
+            };
+            let carve = |out: &mut String, slot: &str| {
+                for &(s, l) in t {
+                    writeln!(out, "remove_range {} in:{} in:{}", slot, s, s as u64 + l as u64 - 1).unwrap();
+                }
+            };
+            let op = *r.pick(&["or", "and", "sub", "xor"]);
+            let multi = which == 9;
+            match op {
+                "or" => {
+                    // the runs dealt to two (three) operands, every fourth run to both
+                    runs_into(out, "b10", 2, 0);
+                    runs_into(out, "b11", 2, 1);
+                    runs_into(out, "b11", 4, 0);
+                    if multi {
+                        runs_into(out, "b12", 3, 1);
+                    }
+                }
+                "and" => {
+                    window(out, "b10", 0);
+                    window(out, "b11", 1);
+                    runs_into(out, "b10", 1, 0);
+                    runs_into(out, "b11", 1, 0);
+                    if multi {
+                        window(out, "b12", r.below(2));
+                        runs_into(out, "b12", 1, 0);
+                    }
+                }
+                _ => {
+                    // sub / xor: (T + P) op P with P disjoint from T; multi: P split into its two windows
+                    window(out, "b10", 0);
+                    window(out, "b10", 1);
+                    carve(out, "b10");
+                    if multi {
+                        window(out, "b11", 0);
+                        window(out, "b12", 1);
+                        carve(out, "b11");
+                        carve(out, "b12");
+                    } else {
+                        writeln!(out, "clone b11 b10").unwrap();
+                    }
+                    runs_into(out, "b10", 1, 0);
+                }
+            }
+            if multi {
+                let kind = *r.pick(&["own", "ref", "res_own", "res_ref"]);
+                let items = if op == "or" && r.chance(1, 2) { "b12 b10 b11" } else { "b10 b11 b12" };
+                // `and` with an empty third operand would be empty: b12 always holds the target there
+                writeln!(out, "new {}", b).unwrap();
+                writeln!(out, "multi {} {} exact {} {}", op, kind, b, items).unwrap();
+                "multi-op"
+            } else {
+                let form = *r.pick(&["oo", "or", "ro", "rr", "ao", "ar"]);
+                writeln!(out, "{} {} {} b10 b11", op, form, b).unwrap();
+                "binary-op"
+            }
+        }
+        10 => {
+            // bit-slice import, one slice per 16-bit prefix of the target, united with |=
+            writeln!(out, "new {}", b).unwrap();
+            let mut i = 0;
+            while i < all.len() {
+                let k = all[i] >> 16;
+                let mut j = i;
+                while j < all.len() && all[j] >> 16 == k {
+                    j += 1;
+                }
+                let first = (all[i] & 0xFFFF) as usize;
+                let last = (all[j - 1] & 0xFFFF) as usize;
+                // byte-aligned start at or below the first value; sometimes the whole chunk
+                let (b0, b1) = if r.chance(1, 3) { (0usize, 8192usize) } else { (first / 8, last / 8 + 1) };
+                let mut bytes = vec![0u8; b1 - b0];
+                for &x in &all[i..j] {
+                    let lo = (x & 0xFFFF) as usize;
+                    bytes[lo / 8 - b0] |= 1 << (lo % 8);
+                }
+                let mut h = String::with_capacity(bytes.len() * 2);
+                for y in &bytes {
+                    write!(h, "{:02x}", y).unwrap();
+                }
+                writeln!(out, "from_lsb0 b10 {} hex:{}", ((k as u64) << 16) + 8 * b0 as u64, h).unwrap();
+                writeln!(out, "or ar {} {} b10", b, b).unwrap();
+                i = j;
+            }
+            "from_lsb0_bytes"
+        }
+        11 => {
+            // decoding of a conformant stream written by the harness's own encoder: array / bitset / run chunks
+            let mut chunks: Vec<super::stream::Chunk> = Vec::new();
+            for &x in &all {
+                let k = (x >> 16) as u16;
+                match chunks.last_mut() {
+                    Some(c) if c.key == k => c.vals.push(x as u16),
+                    _ => chunks.push(super::stream::Chunk { key: k, vals: vec![x as u16], runs: None }),
+                }
+            }
+            for c in chunks.iter_mut() {
+                if r.chance(1, 2) {
+                    c.runs = Some(super::stream::maximal_runs(&c.vals));
+                }
+            }
+            let (bytes, _) = super::stream::encode(&chunks, r.chance(1, 4));
+            writeln!(out, "new {}", b).unwrap();
+            writeln!(out, "deser {} {} {}", *r.pick(&["chk", "unchk"]), b, super::c05::hex(&bytes)).unwrap();
+            "decoded-stream"
+        }
         _ => {
             // clone of a value built by ranges, after the destination held something else
             writeln!(out, "new b9").unwrap();
             for &(s, l) in t {
                 writeln!(out, "insert_range b9 in:{} ex:{}", s, s as u64 + l as u64).unwrap();
             }
+            // the destination holds something else first: chunks of either kind at the same keys / positions as the
+            // source's chunks, with different cardinalities (Clone::clone_from reuses the destination's buffers)
             writeln!(out, "new {}", b).unwrap();
-            writeln!(out, "insert_range {} in:0 ex:5000", b).unwrap();
-            writeln!(out, "clone {} b9", b).unwrap();
+            if r.chance(1, 2) {
+                writeln!(out, "insert_range {} in:0 ex:5000", b).unwrap();
+            }
+            let mut keys: Vec<u64> = t.iter().map(|&(s, _)| (s >> 16) as u64).collect();
+            keys.dedup();
+            for &k in keys.iter().take(4) {
+                match r.below(4) {
+                    0 => writeln!(out, "insert_range {} in:{} in:{}", b, k << 16, (k << 16) + r.range(4097, 9000)).unwrap(),
+                    1 => writeln!(out, "insert_range {} in:{} in:{}", b, (k << 16) + 60000, (k << 16) + 65535).unwrap(),
+                    2 => writeln!(out, "insert {} {}", b, (k << 16) + r.below(65536)).unwrap(),
+                    _ => {}
+                }
+            }
+            if r.chance(1, 4) {
+                writeln!(out, "clone {} b9", b).unwrap();
+            } else {
+                writeln!(out, "clone_from {} b9", b).unwrap();
+            }
             "clone-over-dirty"
         }
     }
 }
 
-pub const N_PRODUCERS: u64 = 8;
+pub const N_PRODUCERS: u64 = 12;
 
 pub fn gen_case(r: &mut Rng, out: &mut String) {
     let t = target(r);
